@@ -54,9 +54,20 @@ def search(ctx):
         groups = sorted(set(rng.sample(groups, 70) + [1, 2, 14, 19, 70, 75, 76, 88, 92, 141, 143, 152, 168, 178, 194, 198, 203, 212, 225, 227]))
     if ctx.broken:
         groups = list(range(1, 231))
-    for no in groups:
-        s = sg.sg(sgno=no)
-        name = s.name
+    settings = [(no, 'standard') for no in groups] + [(no, 'rhombohedral') for no in (146, 148, 155, 160, 161, 166, 167)]
+
+    def draw_hkl():
+        """uniform in the box, or (one draw in three) from the zones and rows on which glide planes and screw axes act"""
+        h, k, l = (rng.randint(-8, 8) for _ in range(3))
+        if rng.random() < 0.35:
+            h, k, l = rng.choice([(h, -2 * h, l), (-2 * k, k, l), (h, h, l), (h, -h, l), (h, 0, l), (0, k, l), (h, k, 0), (h, h, h), (0, 0, l), (h, 0, 0), (0, k, 0),
+                                  (h, k, -h - k), (h, l, l), (h, k, h), (h, -h, 0), (h, h, 0)])
+            if max(abs(h), abs(k), abs(l)) > 8:
+                h, k, l = h // 2, k // 2, l
+        return np.array([h, k, l])
+    for no, ch in settings:
+        s = sg.sg(sgno=no, cell_choice=ch)
+        name = s.name                       # R...r for the rhombohedral settings
         cell = HR.conforming_cell(rng, s.crystal_system, s.cell_choice)
         R, t12 = HR.ops_int(s)
         for rep in range(ctx.n(1, 3)):
@@ -67,12 +78,12 @@ def search(ctx):
             tot = sum(a.occ * SF.formfac(a.atomtype, 0.0) for a in atoms) * s.nsymop
             tol = 1e-6 * max(1.0, tot) * 12   # six-digit thirds: phase errors ~ 2 pi |h| 3.4e-7
             deep = bool(ctx.broken)
-            for q in range(ctx.n(4, 10) * (3 if deep else 1)):
-                h = np.array([rng.randint(-8, 8) for _ in range(3)])
+            for q in range(ctx.n(10, 30) * (3 if deep else 1)):
+                h = draw_hkl()
                 for _try in range(20):          # prefer reflections that are not extinct: an extinct one only tests F = 0
                     if any(h) and not HR.extinct(h, R, t12):
                         break
-                    h = np.array([rng.randint(-8, 8) for _ in range(3)])
+                    h = draw_hkl()
                 # operations: a random one plus up to three whose phase h.t is not an integer (the informative ones)
                 ks = [rng.randrange(s.nsymop)]
                 nonint = [j for j in range(s.nsymop) if int(h.dot(t12[j])) % 12 != 0]
@@ -101,9 +112,9 @@ def search(ctx):
                             why, cls = 'F differs from the explicit sum over the orbit: |diff| = %.3g (scale %.3g)' % (abs(F - Fx), tot), 'value'
                 except Exception as e:
                     why, cls = 'raised %s: %s' % (type(e).__name__, e), 'exc'
-                ctx.count(('sf', no, rep, q), hist='search:%s' % ('+'.join(str(x) for x in kinds)), sample={'sgname': name, 'hkl': h.tolist(), 'natoms': len(atoms)} if no == 14 and q == 0 else None)
-                if why and (cls, no if cls != 'phase:uani' else 0) not in seen:
-                    seen.add((cls, no if cls != 'phase:uani' else 0))
+                ctx.count(('sf', no, ch, rep, q), hist='search:%s' % ('+'.join(str(x) for x in kinds)), sample={'sgname': name, 'hkl': h.tolist(), 'natoms': len(atoms)} if no == 14 and q == 0 else None)
+                if why and (cls, (no, ch) if cls != 'phase:uani' else 0) not in seen:
+                    seen.add((cls, (no, ch) if cls != 'phase:uani' else 0))
                     fails.append({'sgno': no, 'sgname': name, 'cell': cell, 'hkl': h.tolist(), 'op': k, 'class': cls, 'what': why,
                                   'atoms': [dict(pos=a.pos.tolist(), adp_type=a.adp_type, adp=(a.adp if not isinstance(a.adp, list) else list(map(float, a.adp))), occ=a.occ, atomtype=a.atomtype) for a in atoms],
                                   'replay': 'StructureFactor sg=%s hkl=%r: %s' % (name, h.tolist(), why)})
